@@ -25,6 +25,7 @@ import (
 	"strconv"
 	"strings"
 	"sync"
+	"syscall"
 	"testing"
 	"time"
 	"unsafe"
@@ -823,30 +824,45 @@ func TestVerifC11Child(t *testing.T) {
 	defer f.Close()
 	w := bufio.NewWriterSize(f, 1<<16)
 	var mu sync.Mutex
-	started := time.Now()
-	go func() { // watchdog: normal programs take well under a millisecond
+	cpu := func() time.Duration {
+		var ru syscall.Rusage
+		syscall.Getrusage(syscall.RUSAGE_SELF, &ru)
+		return time.Duration(ru.Utime.Nano() + ru.Stime.Nano())
+	}
+	started, startedCPU := time.Now(), cpu()
+	go func() { // watchdog: normal programs take well under 50 ms of CPU
 		for {
-			time.Sleep(200 * time.Millisecond)
+			time.Sleep(100 * time.Millisecond)
 			mu.Lock()
-			d := time.Since(started)
+			d, c := time.Since(started), cpu()-startedCPU
 			mu.Unlock()
-			if d > 20*time.Second {
+			if c > 4*time.Second || d > 120*time.Second {
 				os.Exit(7)
 			}
 		}
 	}()
 	for _, p := range progs {
 		mu.Lock()
-		started = time.Now()
+		started, startedCPU = time.Now(), cpu()
 		mu.Unlock()
 		c11WriteLine(w, p, c11RunOne(p.Toks))
 	}
 }
 
 // c11RunIsolated runs the programs in child processes and appends exactly one line per program to out.
+// After c11MaxFatal programs that killed their process the rest of the list is dropped (each of them
+// is already a reported result; a parser that dies on most inputs would otherwise cost minutes).
+const c11MaxFatal = 3
+
+var errC11Aborted = fmt.Errorf("aborted after %d fatal programs", c11MaxFatal)
+
 func c11RunIsolated(progs []c11Prog, outPath string, work string, tag string) error {
 	rest := progs
+	fatal := 0
 	for round := 0; len(rest) > 0; round++ {
+		if fatal >= c11MaxFatal {
+			return errC11Aborted
+		}
 		inPath := fmt.Sprintf("%s/c11_%s_in_%d.ndjson", work, tag, round)
 		chOut := fmt.Sprintf("%s/c11_%s_out_%d.ndjson", work, tag, round)
 		f, err := os.Create(inPath)
@@ -897,7 +913,7 @@ func c11RunIsolated(progs []c11Prog, outPath string, work string, tag string) er
 			case strings.Contains(se, "stack overflow") || strings.Contains(se, "goroutine stack exceeds"):
 				why = "fatal stack overflow (unbounded recursion)"
 			case runErr != nil && strings.Contains(runErr.Error(), "exit status 7"):
-				why = "no result after 20 s (non-termination)"
+				why = "no result after 4 s of CPU time (non-termination)"
 			case runErr == nil:
 				return fmt.Errorf("child exited cleanly after %d of %d programs:\n%s", done, len(rest), c11Tail(se))
 			default:
@@ -905,6 +921,7 @@ func c11RunIsolated(progs []c11Prog, outPath string, work string, tag string) er
 			}
 			c11WriteLine(ow, rest[done], c11Obs{Res: "crash", Err: why, NS: []c11Entry{}, Calls: []c11Call{}})
 			done++
+			fatal++
 		} else if runErr != nil {
 			return fmt.Errorf("child failed after finishing its programs: %v\n%s", runErr, c11Tail(stderr.String()))
 		}
@@ -957,12 +974,22 @@ func TestVerifC11Repro(t *testing.T) {
 	}
 	out := os.Getenv("C11_REPRO_OUT")
 	os.Remove(out)
-	if err := c11RunIsolated(progs, out, c11Work(t), "repro"); err != nil {
+	if err := c11RunReproducers(progs, out, c11Work(t)); err != nil {
 		t.Fatal(err)
 	}
 	if len(progs) == 0 {
 		os.WriteFile(out, nil, 0644)
 	}
+}
+
+// every reproducer gets its own child (several of them are expected to kill it)
+func c11RunReproducers(progs []c11Prog, out, work string) error {
+	for i := range progs {
+		if err := c11RunIsolated(progs[i:i+1], out, work, "repro"); err != nil && err != errC11Aborted {
+			return err
+		}
+	}
+	return nil
 }
 
 func c11RunParallel(t *testing.T, progs []c11Prog, outPath string) {
@@ -989,8 +1016,11 @@ func c11RunParallel(t *testing.T, progs []c11Prog, outPath string) {
 		}(i, progs[lo:hi])
 	}
 	wg.Wait()
+	aborted := false
 	for _, e := range errs {
-		if e != nil {
+		if e == errC11Aborted {
+			aborted = true
+		} else if e != nil {
 			t.Fatal(e)
 		}
 	}
@@ -1008,7 +1038,7 @@ func c11RunParallel(t *testing.T, progs []c11Prog, outPath string) {
 		}
 		os.Remove(pth)
 	}
-	if n != len(progs) {
+	if n != len(progs) && !aborted {
 		t.Fatalf("recorded %d results for %d programs", n, len(progs))
 	}
 	t.Logf("c11: %d programs parsed", n)
